@@ -164,6 +164,8 @@ def graphs(draw, max_nodes=10, with_assets=True, max_ports=3, apply_only=False):
     nwire = sum(len(n['in']) if n['mode'] == 'apply' else 1 for n in nodes)
     wire = draw(st.permutations(list(range(nwire)))) if draw(st.booleans()) else list(range(nwire))
     spec = {'groups': groups, 'nodes': nodes, 'tail': tail, 'wire': list(wire), 'assets': None}
+    if apply_only:
+        spec['fail'] = draw(st.integers(0, 10**6))  # which node raises in the failing request of a serving history
     if with_assets and draw(st.integers(0, 3)) > 0:
         stateful = [g for g, s in enumerate(groups) if s['kind'] == 'st' and any(n['g'] == g for n in nodes)]
         trained = [g for g in stateful if g in trained_of]
